@@ -1,4 +1,5 @@
 import PlumpyModel.PM.LProof16
+import PlumpyModel.PM.LProof13
 /-!
 # Faults in user code that is not a lifecycle hook, on the process-control model with listeners itself
 
@@ -166,5 +167,14 @@ theorem callback_raise_terminated (l : LCfg) (ht : terminal l.c.st.label = true)
   · rfl
 
 end
+
+theorem excepted_outcome {c : Cfg} {e : Exc} (hi : Inv2 c) (hs : c.st = .excepted e) :
+    c.fut = .exc e ∧ c.closed = true ∧ c.cleanups = 1 ∧ termCount c.notif = 1 := by
+  have ht : terminal c.st.label = true := by rw [hs]; simp [SObj.label, terminal, allowed]
+  obtain ⟨h1, h2, h3, h4⟩ := hi.term ht
+  rw [hs] at h4
+  exact ⟨by simpa [outcomeOf] using h4.symm, h1, h2, h3⟩
+
+
 end L
 end PMF
